@@ -99,9 +99,10 @@ Inductive ccall :=
 Definition nonempty {A} (l : list A) : bool := match l with [] => false | _ => true end.
 Definition attr_err {A} : res A := Err "AttributeError".
 
-(* Python truthiness of the two Optional[List] slots *)
-Definition pk_truthy (st : cstate) : bool := match s_pk st with Some l => nonempty l | None => false end.
-Definition fk_truthy (st : cstate) : bool := match s_fk st with Some f => nonempty (fk_cols f) | None => false end.
+(* the once-only guards of primary_key / foreign_key: "is not None" (identity test since 7e8ce52;
+   the clauses themselves are still rendered on truthiness, see body_clauses) *)
+Definition pk_set (st : cstate) : bool := is_some (s_pk st).
+Definition fk_set (st : cstate) : bool := is_some (s_fk st).
 
 Definition step (cls : ccls) (st : cstate) (c : ccall) : res cstate :=
   let '(mk_cstate tb tmp unl sel cols pers sv pk uqs ine fk loc prs) := st in
@@ -127,10 +128,10 @@ Definition step (cls : ccls) (st : cstate) (c : ccall) : res cstate :=
   | KPeriodFor n s e => Ok (mk_cstate tb tmp unl sel cols (pers ++ [mk_period n s e]) sv pk uqs ine fk loc prs)
   | KUnique ns => Ok (mk_cstate tb tmp unl sel cols pers sv pk (uqs ++ [ns]) ine fk loc prs)
   | KPrimaryKey ns =>
-      if pk_truthy st then attr_err
+      if pk_set st then attr_err
       else Ok (mk_cstate tb tmp unl sel cols pers sv (Some ns) uqs ine fk loc prs)
   | KForeignKey fc t rc od ou =>
-      if fk_truthy st then attr_err
+      if fk_set st then attr_err
       else Ok (mk_cstate tb tmp unl sel cols pers sv pk uqs ine (Some (mk_fkey fc t rc od ou)) loc prs)
   | KAsSelect q =>
       if nonempty cols then attr_err
@@ -267,19 +268,18 @@ Inductive dcall :=
 | DIfExists
 | DOnCluster (c : string).
 
-Definition target_truthy (t : dtarget) : bool := match t with DTStr EmptyString => false | _ => true end.
 Definition is_ch_kind (k : dkind) : bool := match k with KDictionary | KQuota => true | _ => false end.
 
 Definition dstep (cls : dcls) (st : dstate) (c : dcall) : res dstate :=
   match c with
   | DDrop k tg =>
       if (is_ch_kind k && negb (has_clickhouse_drops cls))%bool then attr_err      (* no such method *)
-      else if target_truthy (d_target st) then attr_err                          (* _set_target guard *)
+      else if is_some (d_kind st) then attr_err                 (* _set_target guard: _drop_target_kind is not None *)
       else Ok (mk_dstate (Some (drop_kind_text k)) tg (d_if_exists st) (d_cluster st))
   | DIfExists => Ok (mk_dstate (d_kind st) (d_target st) true (d_cluster st))
   | DOnCluster c =>
       if negb (has_clickhouse_drops cls) then attr_err
-      else if truthy_ostr (d_cluster st) then attr_err
+      else if is_some (d_cluster st) then attr_err
       else Ok (mk_dstate (d_kind st) (d_target st) (d_if_exists st) (Some c))
   end.
 
@@ -754,7 +754,7 @@ Definition calls_periods (calls : list ccall) : list period :=
   flat_map (fun c => match c with KPeriodFor n s e => [mk_period n s e] | _ => [] end) calls.
 Definition calls_uniques (calls : list ccall) : list (list string) :=
   flat_map (fun c => match c with KUnique ns => [ns] | _ => [] end) calls.
-(* the last primary_key / foreign_key / as_select call (earlier ones, if any, had no effect left) *)
+(* the primary_key / foreign_key call (a second one raises) and the last as_select call *)
 Definition last_pk (calls : list ccall) : option (list string) :=
   fold_left (fun acc c => match c with KPrimaryKey ns => Some ns | _ => acc end) calls None.
 Definition last_fk (calls : list ccall) : option fkey :=
